@@ -211,6 +211,10 @@ def p2(prog: Program, chk: Check) -> Dict[str, List[Tuple[Unit, ast.Call]]]:
                 chain = _with_items_enclosing(u, c)
                 if chain == "ctx":
                     chk.add("P2", u, construct, True, "context-managed (`with`)", c)
+                elif _bound_and_managed(u, c):
+                    chk.add("P2", u, construct, True,
+                            "bound to a name that is entered as a `with` context (or shut down) "
+                            "on every path", c)
                 else:
                     chk.add("P2", u, construct, False,
                             "creates background activity that is not context-managed", c)
@@ -224,6 +228,35 @@ def p2(prog: Program, chk: Check) -> Dict[str, List[Tuple[Unit, ast.Call]]]:
                     chk.add("P2", m, f"{resolve_call(m, c)}(...)", False,
                             "module-level creation of background activity", c)
     return timers
+
+
+def _bound_and_managed(u: Unit, c: ast.Call) -> bool:
+    """`name = Starter(...)` followed on every path (exceptional edges included) by
+    `with name:` or `name.shutdown()/join()`."""
+    du = DefUse(u)
+    g = du.cfg
+    nid = du.node_of(c)
+    if nid is None:
+        return False
+    n = g.nodes[nid]
+    if not (n.kind == "stmt" and isinstance(n.ast, ast.Assign) and n.ast.value is c
+            and len(n.ast.targets) == 1 and isinstance(n.ast.targets[0], ast.Name)):
+        return False
+    name = n.ast.targets[0].id
+    closers = set()
+    for m in g.nodes:
+        if m.kind == "with_enter" and isinstance(m.ast.context_expr, ast.Name) \
+                and m.ast.context_expr.id == name:
+            closers.add(m.id)
+        for x in m.calls():
+            if method_call(x) in ((name, "shutdown"), (name, "join"), (name, "close"),
+                                  (name, "terminate")):
+                closers.add(m.id)
+    if not closers:
+        return False
+    starts = [b for (b, l) in g.succ[nid] if l != "e" and b not in closers]
+    p = g.find_path(starts, lambda x: x in (g.exit, g.raise_exit), blocked=lambda x: x in closers)
+    return p is None
 
 
 def _with_items_enclosing(u: Unit, c: ast.Call) -> str:
